@@ -1537,7 +1537,7 @@ func (t *tScreen) parseClipboard(buf *bytes.Buffer, evs *[]Event) (bool, bool) {
 	}
 	b = b[len(prefix):]
 
-	for _, c := range b {
+	for i, c := range b {
 		// valid base64 digits
 		if state == 0 {
 			if (c >= 'A' && c <= 'Z') || (c >= 'a' && c <= 'z') || (c >= '0' && c <= '9') || (c == '+') || (c == '/') || (c == '=') {
@@ -1549,7 +1549,7 @@ func (t *tScreen) parseClipboard(buf *bytes.Buffer, evs *[]Event) (bool, bool) {
 			}
 			if c == '\a' {
 				// matched with BEL instead of ST
-				b = b[:len(b)-1] // drop the trailing BEL
+				b = b[:i] // the data ends before the BEL
 				decoded := make([]byte, base64.StdEncoding.DecodedLen(len(b)))
 				if num, err := base64.StdEncoding.Decode(decoded, b); err == nil {
 					*evs = append(*evs, NewEventClipboard(decoded[:num]))
@@ -1561,7 +1561,7 @@ func (t *tScreen) parseClipboard(buf *bytes.Buffer, evs *[]Event) (bool, bool) {
 		}
 		if state == 1 {
 			if c == '\\' {
-				b = b[:len(b)-2] // drop the trailing ST (\x1b\\)
+				b = b[:i-1] // the data ends before the ST (\x1b\\)
 				// now decode the data
 				decoded := make([]byte, base64.StdEncoding.DecodedLen(len(b)))
 				if num, err := base64.StdEncoding.Decode(decoded, b); err == nil {
